@@ -10,7 +10,7 @@ for n in $names; do
   d=seeded/$n
   id=$(echo $n | cut -d- -f1)
   if ! git -C "$R" apply --check $V/$d/patch.diff 2>/dev/null; then echo "$n does-not-apply"; continue; fi
-  out=$(tools/try_patch.sh $V/$d/patch.diff $id $tier 2>&1 | grep -v "^KNOWN-FINDING\|WARNING conda" | tail -3)
+  out=$(tools/try_patch.sh $V/$d/patch.diff $id $tier 2>&1 | grep "^VIOLATION\|^C[0-9][0-9] [a-z]* seed=\|^exit=" | tail -3)
   if echo "$out" | grep -q "^VIOLATION"; then
     if echo "$out" | grep -q "no-failing-input-found"; then res="caught-without-input"; else res="caught"; fi
   else res="MISSED"; fi
